@@ -639,3 +639,155 @@ PROPS['C12'] = {
     'assumptions': ['runtime theorems are about the sequence functions fed with the key presses the key-state diff produces; the layout slice (queue, one event per tick, NormalKey/Custom states) is modelled and compared per tick, not proved about',
                     'fewer than 32 queued events and 64 key states; key codes are keyboard keys (no mouse buttons/wheel)'],
 }
+
+# ---------------------------------------------------------------------------------------- C16
+def _c16_norm(out):
+    # "… | pair differ:layers" -> "… | pair differ": the detail after the verdict is for humans
+    return re.sub(r'\| pair (equal|differ)\S*', r'| pair \1', out)
+
+
+def _c16_pair(out):
+    m = re.search(r'\| pair (equal|differ)', out)
+    return m.group(1) if m else out
+
+
+def _c16_note(case):
+    return case.rsplit(' # ', 1)[1] if ' # ' in case else ''
+
+
+def _c16_nontrivial(case, impl):
+    # the rewrite was applied, both configurations were accepted and the paired run produced output,
+    # or a deliberately non-neutral rewrite was told apart
+    if case.startswith('C16 neg'):
+        return '| pair differ' in impl
+    m = re.search(r'\| pair equal:accepted:(\d+)', impl)
+    return bool(m) and int(m.group(1)) > 0
+
+
+def _c16_stats(cases, impl):
+    import collections
+    d = collections.Counter()
+    for c, i in zip(cases, impl):
+        kind = c.split(' ', 2)[1]
+        d['kind_' + kind] += 1
+        v = re.search(r'\| pair (\S+)', i)
+        v = v.group(1) if v else i[:30]
+        d['verdict_' + ':'.join(v.split(':')[:2])] += 1
+        note = _c16_note(c)
+        if kind != 'neg':
+            rws = [x for x in note.split(',') if x]
+            d['rewrites_%s' % ('1' if len(rws) <= 1 else '2' if len(rws) == 2 else '3_plus')] += 1
+            for x in rws:
+                x = re.sub(r'[\d+]+$', '', x.split(':')[0])
+                d['rw_' + x] += 1
+        else:
+            d['neg_' + note] += 1
+        for k in ('defchordsv2', 'defchords', 'defseq', 'defoverrides', 'defvirtualkeys', 'deffakekeys', 'switch',
+                  'tap-dance', 'one-shot', 'fork', 'macro', 'multi', 'tap-hold', 'deflayermap', 'concat'):
+            if (':' + k + ' ') in c:
+                d['has_' + k] += 1
+    return dict(d)
+
+
+def _c16_forest(toks, i):
+    """tokens -> nested lists; returns (forest, next index); toks[i] == '('"""
+    assert toks[i] == '('
+    out, i = [], i + 1
+    while toks[i] != ')':
+        if toks[i] == '(':
+            sub, i = _c16_forest(toks, i)
+            out.append(sub)
+        else:
+            out.append(toks[i])
+            i += 1
+    return out, i + 1
+
+
+def _c16_untok(f):
+    out = ['(']
+    for x in f:
+        out += _c16_untok(x) if isinstance(x, list) else [x]
+    return out + [')']
+
+
+def _c16_split(case):
+    toks = case.split(' ')
+    io = toks.index('O')
+    o, i = _c16_forest(toks, io + 1)
+    assert toks[i] == 'R'
+    r, i = _c16_forest(toks, i + 1)
+    assert toks[i] == 'F'
+    ih = toks.index('H', i)
+    hist = toks[ih + 1:]
+    tail = []
+    if '#' in hist:
+        k = hist.index('#')
+        hist, tail = hist[:k], hist[k:]
+    return toks[:io], o, r, toks[i:ih], hist, tail
+
+
+def _c16_join(head, o, r, files, hist, tail):
+    return ' '.join(head + ['O'] + _c16_untok(o) + ['R'] + _c16_untok(r) + files + ['H'] + hist + tail)
+
+
+def _c16_shrink(case):
+    try:
+        head, o, r, files, hist, tail = _c16_split(case)
+    except Exception:
+        return
+    # shorter histories
+    n = len(hist)
+    if n > 1:
+        yield _c16_join(head, o, r, files, hist[:n // 2], tail)
+        yield _c16_join(head, o, r, files, hist[n // 2:], tail)
+        for k in range(n):
+            yield _c16_join(head, o, r, files, hist[:k] + hist[k + 1:], tail)
+    # a top-level item that is the same in both configurations
+    for k, item in enumerate(o):
+        if item in r:
+            r2 = list(r)
+            r2.remove(item)
+            yield _c16_join(head, o[:k] + o[k + 1:], r2, files, hist, tail)
+
+
+def _c16_text(f):
+    import urllib.parse
+    def one(x):
+        if isinstance(x, list):
+            return '(' + ' '.join(one(y) for y in x) + ')'
+        return urllib.parse.unquote(x[1:])
+    return '\n'.join(one(x) for x in f)
+
+
+def _c16_describe(case):
+    try:
+        head, o, r, files, hist, tail = _c16_split(case)
+        ftxt = ''
+        if len(files) > 2:
+            toks, i = files, 2
+            while i < len(toks):
+                name = toks[i]
+                f, i = _c16_forest(toks, i + 1)
+                ftxt += f'\n--- file {name}\n' + _c16_text(f)
+        return ('--- original configuration\n' + _c16_text(o) + '\n--- rewritten configuration\n' + _c16_text(r) + ftxt +
+                '\n--- input history (p:key press, r:key release, t:ms)\n' + ' '.join(hist) + '\n--- rewrites: ' + _c16_note(case))
+    except Exception as e:  # pragma: no cover
+        return case
+
+
+PROPS['C16'] = {
+    'lean_modules': ['KVerif.Props.C16'],
+    'norm_impl': _c16_norm,
+    'oracle_project': _c16_pair,
+    'nontrivial': _c16_nontrivial,
+    'shrink_candidates': _c16_shrink,
+    'describe': _c16_describe,
+    'per_case_timeout': 1.5,
+    'rule': 'generated configurations over the action grammar (keys, chords, layers, tap-hold family, one-shot, tap-dance, macro, multi, fork, switch, unmod, virtual keys, defseq, defoverrides, defchords, defchordsv2, defcfg options), rewritten by 1-6 randomly composed rewrites (defalias, defvar on numbers / key names / layer names / lists / actions, deftemplate + template-expand with 0-3 parameters, with if-equal / if-not-equal / if-in-list / if-not-in-list wrappers and dispatch, whole items from a template, include, platform active / inactive, deflayer -> deflayermap with _ / __ / ___ defaults), plus deliberately non-neutral rewrites; each pair is parsed by the real parser and driven through the real state machine on a random history; non-trivial = both accepted and the paired run produced OS output (or, for a non-neutral rewrite, the difference was observed); distinct = distinct case line',
+    'stats': _c16_stats,
+    'trusted_base': ['Model/CfgTree.lean as a transcription of sexpr.rs (accessors), deftemplate.rs, platform.rs and the include / defvar / defalias / layer-filling parts of cfg/mod.rs — tied by the correspondence on the expanded item list and on the resolved view (real functions via hooks verif_expand_pipeline / verif_parse_vars)',
+                     'the ~90 argument parsers of cfg/mod.rs are NOT modelled: that they look at their input only through atom(vars)/list(vars)/parse_action is established by the paired runs on generated configurations, not proved; the sites that bypass variables are regenerated from the source (Gen/BypassSites.lean) and every one must be classified for the proofs to build',
+                     'the s-expression reader (text -> tree) is outside this check (C03); the harness checks that each generated text reads back as the tree the model was given'],
+    'assumptions': ['linux build: the active platform is "linux"; environment variables are unavailable in new_from_str, so (environment ...) is an error',
+                    'Debug renderings used for comparison do not show the key list captured by tap-hold-release-keys / tap-hold-except-keys closures; those are compared through the paired runs only'],
+}
